@@ -11,6 +11,8 @@ import IrVerif.Lemmas.ScopeMeta
 import IrVerif.Model.ScopeFunc9
 import IrVerif.Lemmas.ScopeExt
 import IrVerif.Lemmas.ScopeExtInv
+import IrVerif.Lemmas.ScopeExtLocal
+import IrVerif.Lemmas.ScopeFunc9Inert
 namespace IrVerif.Scope
 
 /-- **C17_total**: `deserialize` is a total function on every `GraphP`, with no well-formedness
@@ -447,6 +449,30 @@ example : vinfoLens9 true exampleIR9 = some (0, 0) := by decide +kernel
 example : vinfoLens9 false ⟨.mk [⟨"x", {}⟩] [] [] [ .mk ["x"] ["y"] [] ] [⟨"y", {}⟩], exampleIR9.funcs⟩ = some (1, 1) := by
   decide +kernel
 
+/-- **C17_ir9_entries_inert** (deepening round 4; the repaired IR version < 10 format, `serializeM9 true`): the
+    experimental `domain::function/value` entries that serialization appends to the MAIN graph's value_info are
+    inert for the main graph — with or without them the main graph deserializes to the same store and tree (or
+    the same error), in every store and under every scope stack.  This is exactly what was false before the
+    repair of D320 (`C17_ir9_not_idempotent`: an entry named like a main-graph value was attached to that value
+    on load); it holds for EVERY model `m` whose main-graph initializers are keyed by the name of their value
+    (`hkeys`: decidable, a clause of `C17_consistent`'s `tree` for every deserialized model; evaluated by the
+    driver on every IR < 10 case, counter ir9_init_keys_named).  Proof: `_deserialize_graph` reads its value_info
+    table only at the names of its initializer tensors and of the inputs / outputs of its own nodes
+    (`deserGraph_vinfo_congr`); every such non-empty name of the serialized main graph is one of the reserved
+    names of the repair (`lookupNames_reserved`); an experimental entry is written only under a name that is not
+    reserved and parses back, hence is not empty (`expOfFunc_mem`).
+    NOT proved: the full fix-point `C17_idempotent_ir9` (that the entries are read back into the FUNCTION values
+    they were written for and written again unchanged needs the resolution certificate of the functions; it
+    stays differential: model Q and Q2 against the real ones on every IR < 10 case with functions, and the
+    oracle). -/
+theorem C17_ir9_entries_inert (m w1 : MWorld) (Q : ModelP) (h : serializeM9 true m = .ok (w1, Q))
+    (hkeys : ∀ kv ∈ m.root.inits, (m.st.vals kv.2).name = some kv.1) :
+    ∃ q, serializeM m = .ok (w1, q) ∧
+      (∀ (st : Store) (outer : List Table), deserGraph st outer Q.graph = deserGraph st outer q.graph) ∧
+      deserialize Q.graph = deserialize q.graph := by
+  obtain ⟨q, hq, he⟩ := ir9_entries_inert m w1 Q h hkeys
+  exact ⟨q, hq, he, by simp only [deserialize, he]⟩
+
 /-! ### the extended model (`Model/ScopeExt.lean`): merged value metadata, quantization annotations, sharding
 values of node device configurations -/
 
@@ -505,6 +531,39 @@ theorem C17_total_ext (p : GraphE) :
   cases h : deserializeE p with
   | ok w => exact .inl ⟨w, rfl⟩
   | error e => exact .inr ⟨e, rfl⟩
+
+/-- **C17_ext_payload_fixpoint** (deepening round 4; the PAYLOAD half of the extended model's fix-point).  The
+    fix-point `serializeE (deserializeE q) = q` of the extended model has two halves: the FLOW (which entry of
+    the re-serialized proto reaches which value of the reloaded model) and the PAYLOAD (what an entry written by
+    the serializer becomes when it is read and written again).  This theorem is the payload half, for EVERY
+    model the extended deserializer returns, with no hypothesis on the proto:
+    (1) merged `metadata_props` have distinct keys, so what `serialize_value_into` writes (sorted by key) is read
+    back by the creation entry of the reloaded value as it was written, a graph-output entry carrying the same
+    metadata merged over it (`metadata_props.update`) changes nothing, and the result is written again unchanged;
+    (2) a quantization annotation is a non-empty dict with distinct keys: it is written, read back as a non-empty
+    dict and written again as it was;
+    (3) the device configurations that serialization writes for a node are read back — their sharding values
+    resolved in ANY scope stack whose tables bind names to values carrying them (the invariant `Named` that holds
+    of every scope of the deserializer) — as configurations that are written again as they were.
+    NOT covered (still differential: counter ext_model_fixpoint, and the oracle): the flow half for the extension
+    state — that the entries carrying a value's metadata / annotation are the ones that reach its reloaded image
+    (for the store it is `C17_idempotent` through `C17_ext_erasure`).  `C17_idempotent_ext` in full is open. -/
+theorem C17_ext_payload_fixpoint (p : GraphE) (w : WorldE) (h : deserializeE p = .ok w) :
+    (∀ v, ssUpdate [] (ssSorted (w.ext.vmeta v)) = ssSorted (w.ext.vmeta v) ∧
+      ssUpdate (ssUpdate [] (ssSorted (w.ext.vmeta v))) (ssSorted (w.ext.vmeta v)) =
+        ssUpdate [] (ssSorted (w.ext.vmeta v)) ∧
+      ssSorted (ssUpdate [] (ssSorted (w.ext.vmeta v))) = ssSorted (w.ext.vmeta v)) ∧
+    (∀ v ps, w.ext.quant v = some ps →
+      (ssSorted ps).isEmpty = false ∧ ssOfEntries (ssSorted ps) ≠ [] ∧
+      ssSorted (ssOfEntries (ssSorted ps)) = ssSorted ps) ∧
+    (∀ n ps, serDevRs w.st.vals (w.ext.devs n) = .ok ps →
+      ∀ (st' : Store) (scopes : List Table), (∀ t ∈ scopes, Named st' t) →
+        serDevRs st'.vals (ps.map (deserDevR scopes)) = .ok ps) := by
+  have hw := deserializeE_wf p w h
+  refine ⟨fun v => meta_payload_fix _ (hw v).1, fun v ps hq => ?_, fun n ps hs st' scopes hn => ?_⟩
+  · obtain ⟨h1, h2⟩ := (hw v).2 ps hq
+    exact quant_payload_fix ps h1 h2
+  · exact devs_payload_fix w.st.vals st'.vals scopes hn _ ps hs
 
 /-- **C17_idempotent_partial**: if deserialization returns an IR `w` that is `Serializable` (the names
     of the proto were SSA per scope chain, every reference resolved to a definition of an enclosing
@@ -655,5 +714,30 @@ def exampleExtModelChk : Bool :=
   | .error _ => false
 
 example : exampleExtModelChk = true := by decide +kernel
+
+/-- the hypotheses of `C17_ext_payload_fixpoint` are satisfiable with non-trivial payloads: `exampleExt` has merged
+    metadata, an annotation, and (below IR version 11 nothing is written; from 11 on the spec without a value is
+    refused, so the third clause is exercised on a variant without it) device configurations -/
+def exampleExt2 : GraphE :=
+  .mk [⟨"x", { ty := some "f32" }, [("k", "1"), ("a", "0")]⟩] [] []
+    [ .mk ["x", "ghost"] ["y"] [⟨"cfg0", none, [("x", "s0"), ("nowhere", "s1")]⟩] [] ]
+    [⟨"x", {}, [("k", "2")]⟩, ⟨"y", {}, []⟩]
+    [⟨"x", [("SCALE_TENSOR", "s")]⟩]
+
+example : (match deserializeE exampleExt2 with
+    | .ok w => w.ext.vmeta 0 == [("k", "2"), ("a", "0")] && w.ext.quant 0 == some [("SCALE_TENSOR", "s")] &&
+        (match serDevRs w.st.vals (w.ext.devs 0) with | .ok ps => ps.length == 1 | .error _ => false)
+    | .error _ => false) = true := by decide +kernel
+
+/-- the hypotheses of `C17_ir9_entries_inert` are satisfiable: an IR < 10 model with an initializer and a function
+    whose value has something to say (one experimental entry is written) -/
+def exampleIR9b : ModelP :=
+  ⟨.mk [⟨"x", {}⟩] [⟨"w", "d0", "f32", "[2]"⟩] [] [ .mk ["x", "w"] ["y"] [] ] [⟨"y", {}⟩], exampleIR9.funcs⟩
+
+example : (match deserializeM9 exampleIR9b with
+    | .ok m => (match serializeM9 true m with
+        | .ok (_, Q) => Q.graph.vinfo.length == 2
+        | .error _ => false) && m.root.inits.all (fun kv => (m.st.vals kv.2).name == some kv.1)
+    | .error _ => false) = true := by decide +kernel
 
 end IrVerif.Scope
